@@ -36,7 +36,7 @@ CLAIMS = {
     "C01": ("other",
             "Structural half of round-tripping, for all specs of the shape lattice and all values: abstract interpretation of "
             "the generator; on every emitted class the write grammar and the read grammar (extracted by data flow) are mirror "
-            "images under the inverse table, no emitted method reads an unbound name, the constructor takes exactly the "
+            "images under the inverse table (a remaining/size element count only for elements of exactly that size), no emitted method reads an unbound name, the constructor takes exactly the "
             "declared fields and derives length fields from their referents, absent optionals are constructible, byte_size "
             "is the reader position delta; plus the primitive round trips (C04/C07/C08 re-run). Carries the open finding F3. "
             "Does NOT decide end-to-end value equality (wire-unambiguity side conditions, codec library).",
@@ -48,8 +48,9 @@ CLAIMS = {
             "equals, token by token, the reference grammar computed from the abstract XML by an independent table of "
             "eo-protocol semantics (order, encodings incl. overrides, length minus offset, hardcoded/dummy values and guard, "
             "breaks, separating vs trailing delimiters, padded flag, sanitisation brackets, case arms); explicit boolean "
-            "defaults are shapes of their own; family()/action() provenance and the integer width table are checked on the "
-            "emitter. Does NOT decide bytes for concrete values (composition with C04/C07/C08/C09).",
+            "defaults are shapes of their own; family()/action() of every packet written by the abstractly executed generator "
+            "return the members named by that packet's own attributes; the integer width table is checked on the emitter. "
+            "Does NOT decide bytes for concrete values (composition with C04/C07/C08/C09).",
             "Trusted: engine C, sa/refs/wire_semantics.py.",
             "abstract interpretation of the generator + comparison of the extracted write grammar with a reference grammar",
             "A+C", "DESIGN.md section 4, C02"),
@@ -88,8 +89,8 @@ CLAIMS = {
             "Every public add_* method of the real EoWriter is interpreted on an abstract writer (arbitrary earlier "
             "contents, every two-step history of the sanitisation mode, symbolic integer / string length / length "
             "argument / padded flag). On every path: raises iff the declared limit or length rule is violated, nothing "
-            "is written before a raise, an accepted call appends exactly the declared width/length, integers are the "
-            "prefix of encode_number, padding is 0xFF and added before encoding, the generic string byte is rewritten "
+            "is written before a raise, an accepted call appends exactly the declared width/length, the integer bytes "
+            "(whatever the number of writes) are the prefix of encode_number, padding is 0xFF and added before encoding, the generic string byte is rewritten "
             "0xFF->0x79 exactly when the mode is on.",
             "Trusted: engine B + segmented buffers; cp1252/'replace' gives one byte per character; C08 for encode_string.",
             "abstract interpretation of the class over segmented abstract buffers (affine domain, path forking)",
@@ -129,9 +130,12 @@ CLAIMS = {
             "B", "DESIGN.md section 4, C12"),
     "C13": ("proof",
             "Per-operation refinement of PacketSequencer against a two-variable reference transition system on a symbolic "
-            "state (any start, counter in 0..9), inductive counter invariant, and an ownership rule that nothing else "
-            "stores the state; together: agreement on every history.",
-            "Trusted: engine A/B, sa/refs/sequencer_model.py; SequenceStart.value is a pure read.",
+            "state under one of two coupling relations (the integer field is the counter in 0..9, or counts freely with the "
+            "counter = field mod 10), inductive invariant, and an ownership rule that nothing else stores the state; together: "
+            "agreement on every history. Every concrete start class reports as .value the integer it was built with (any "
+            "sign). When no coupling works a violation is reported only with an interpreted request history that departs from "
+            "start + (n mod 10), otherwise exit 2.",
+            "Trusted: engine A/B, sa/refs/sequencer_model.py.",
             "abstract interpretation per operation vs reference model + who-may-write rule",
             "A+B", "DESIGN.md section 4, C13"),
     "C14": ("other",
@@ -154,7 +158,8 @@ CLAIMS = {
             "(abstract interpretation with symbolic spec text, the real CodeBlock included); every emitted "
             "serialize/deserialize, nested case classes included, must satisfy the S-mode typestate rule: entry mode read "
             "once before anything else, body inside try/finally whose last mode write restores the saved value, saved "
-            "variable never reassigned, inner writes literal True/False and bracketed within one block. Induction over "
+            "variable never reassigned, inner writes literal True/False and bracketed within one block; and the mode switches "
+            "sit exactly where the reference puts the spec's chunked sections (S2, the 'consequently' clause). Induction over "
             "nesting gives the property for every spec composed of these shapes.",
             "Trusted: engine C evaluator (Python subset + native string models), the shape lattice as a cover of the "
             "instruction grammar, CPython ast for the skeleton.",
@@ -180,10 +185,11 @@ CLAIMS = {
             "A+C", "DESIGN.md section 4, C17"),
     "C18": ("other",
             "Determinism: static rules on the generator (no nondeterministic source; every iteration over a set ends in an "
-            "order-insensitive sink or sorted(), flow-sensitively; accumulators cleared in finally; indexing never resolves "
-            "types) plus an abstract whole-program run of generate() over a 7-directory spec tree under four directory "
-            "enumeration orders and two consecutive runs on one instance: all succeed with identical output templates, "
-            "truncating sinks with explicit encoding, makedirs(exist_ok). Importability: every emitted class of the shape "
+            "order-insensitive sink, sorted(), or a local list sorted before use, flow-sensitively; accumulators cleared in "
+            "finally; indexing never resolves types) plus an abstract whole-program run of generate() over a 7-directory spec "
+            "tree under four directory enumeration orders and two consecutive runs on one instance, into an output directory "
+            "pre-populated with unknown contents: all succeed with identical output templates on every path, sorted() over a "
+            "set never ties on its key, truncating sinks with explicit (utf-8) encoding, makedirs(exist_ok). Importability: every emitted class of the shape "
             "lattice compiles, binds/imports every name it uses from where it is defined, spec text inside string "
             "literals/docstrings is escaped; in the whole-program output every file compiles, every directory is a package, "
             "every import resolves, every package __init__ star-imports its modules. Does NOT decide success beyond the "
@@ -192,7 +198,8 @@ CLAIMS = {
             "abstract interpretation of the whole generator + AST rules on emitted files + static determinism rules",
             "A+C", "DESIGN.md section 4, C18"),
     "C19": ("proof",
-            "Same abstract interpretation of the generator; on every emitted class the S-immut rule: fields private and "
+            "Same abstract interpretation of the generator; on every emitted class of the lattice and of the whole-program run "
+            "(packets included) the S-immut rule: fields private and "
             "assigned only in __init__, getter-only properties (no setter/deleter/__setattr__), byte_size set once on the "
             "fresh result, array parameters copied with tuple(), serialize neither assigns nor mutates the object; plus the "
             "runtime facts that EoReader returns copies (C05.R9) and EoWriter never adopts a caller's buffer (C09).",
@@ -202,8 +209,8 @@ CLAIMS = {
     "C20": ("other",
             "Import-binding simulation: Python's import semantics executed abstractly over the ASTs of the static "
             "packages and of the package the generator writes, for a family of 44 representative spec trees (no cross "
-            "reference, every single cross-directory reference direction, all safe directions at once) and every possible "
-            "first import; the final name->object maps must resolve every documented module path to that module and bind "
+            "reference, every single cross-directory reference direction, all safe directions at once) x two families of type "
+            "names (sorting before / after packet_family, i.e. both star-import orders) and every possible first import; the final name->object maps must resolve every documented module path to that module and bind "
             "every public name and generated class to one object at home and at the top. Carries open known findings "
             "(F9: references into a packet directory from root/map).",
             "Trusted: engine D's model of import semantics (audited against CPython 3.12 during development); the "
